@@ -240,7 +240,19 @@ def run(ctx):
                 src = c.args[0] if c.args else None
                 o = [root_name(x) for x in origin(K, src, fr)] if src is not None else []
                 v0 = last_assignment(src.id, fn, c.lineno) if isinstance(src, ast.Name) else src
-                if v0 is not None and 'res[0]' in norm(v0) or (v0 is not None and 'results' in norm(v0)):
+                # the update's argument is built from the rows of the SELECT of this chunk (def-use: a comprehension over a name assigned from execute(select ...))
+                from_rows = False
+                if v0 is not None:
+                    for x in ast.walk(v0):
+                        if isinstance(x, ast.comprehension):
+                            base = next((y for y in ast.walk(x.iter) if isinstance(y, ast.Name)), None)
+                            if 'select' in norm(x.iter) and 'execute' in norm(x.iter):
+                                from_rows = True
+                            elif base is not None:
+                                rv = last_assignment(base.id, fn, c.lineno)
+                                if isinstance(rv, ast.Call) and 'execute' in norm(rv) and 'select' in norm(rv):
+                                    from_rows = True
+                if from_rows:
                     detail.append(f'{nm}: keys of the rows selected for the chunk')
                 else:
                     okr = False
